@@ -355,10 +355,11 @@ K("C09/into-move/simple", ["C09", "C02"], SN + "c09_into_move_simple", ["san::Da
   assumes=CANDS)
 K("C09/into-move/pawn-capture-short", ["C09", "C02"], SN + "c09_into_move_pawn_capture_short", ["san::Data::into_move"],
   "for all boards and candidate lists: the short pawn-capture form resolves to the unique candidate, reports Ambiguity for two or more, NotFound for none", assumes=CANDS)
-for _c in ("w", "b"):
-    K("C09/into-move/built/%s" % _c, ["C09", "C02", "C12"], SN + "c09_into_move_built_%s" % _c, ["san::Data::into_move"],
-      "for all well-formed boards (side %s) and ALL field values of PawnMove / PawnCapture / Castling SAN data, with Move::validate imported by contract: no panic (square arithmetic guarded); Ok(m) => m is legal by the rules, is a pawn move to the written destination from the written / same file with the written promotion (resp. a castling)" % _c,
-      assumes=ISLEGAL + ["C06/well-formed"], timeout=2400)
+for _v in ("pawn_move", "pawn_capture", "castling"):
+    for _c in ("w", "b"):
+        K("C09/into-move/built/%s/%s" % (_v.replace("_", "-"), _c), ["C09", "C02", "C12"], "moves::san::verif_kani_c::c09_built_%s_%s" % (_v, _c), ["san::Data::into_move"],
+          "for all well-formed boards (side %s) and ALL field values of the %s SAN form, with Move::validate imported by contract: no panic (square arithmetic guarded); Ok(m) => m is legal by the rules and is the move written (pawn to the written destination from the written / same file with the written promotion, resp. a castling)" % (_c, _v.replace("_", " ")),
+          assumes=ISLEGAL + ["C06/well-formed", "C01/validate-glue"], timeout=2400, mem_gb=32, mem_est=8)
 for _v, _d in (("castling", "O-O / O-O-O"), ("pawn_move", "destination [=promotion]"), ("pawn_capture", "file x destination [=promotion]"), ("piece_move", "piece letter [file][rank][x] destination")):
     K("C09/text/%s" % _v.replace("_", "-"), ["C09", "C12"], "moves::san::verif_kani_b::c09_text_%s" % _v, ["<san::Move as Display>::fmt", "san::Data::do_fmt", "san::Move::do_fmt", "<san::Move as FromStr>::from_str", "<san::Data as FromStr>::from_str"],
       "for every SAN value of this variant that from_move can produce (all field values x check marks none / + / #): the text is the standard algebraic notation (%s, then + or #) and parsing it gives the value back (hence distinct values get distinct texts)" % _d,
